@@ -11,6 +11,20 @@ import RisorModel.C20.Bridge
                                              (renderOk and pad:carets = the repaired FriendlyErrorMessage: its two Repeat counts,
                                               the caret count taken against the quoted line when the span leaves the line)
   kl   <src-utf8-hex>                      → kinds and literals only (layout comparisons)
+  gap  <pre-hex> <cm-hex> <rest-hex>       the instance of GapProps.lean for the two texts  A = pre cm ⏎ rest  and  B = pre ⏎ rest
+       cm: blanks (possibly none), any number of block comments, then a line comment (`#…` or `//…`), without newline
+       → ok TAB guard TAB form TAB sameKL TAB shifted TAB nA TAB nB
+       guard:   1 when the decidable guard of the applicable theorem holds: `cutsAt2 fuel pre (first rune of cm) 10 ""`
+                (cm begins with `#` or `/`: lex_line_comment_at_line_end) or `cutsAt fuel pre b ""` (cm begins with the
+                blank b: lex_line_comment_after_blanks)
+       form:    1 when cm has the form the theorems speak about (blanks, proper block comments, a line comment whose
+                text has no newline/NUL); `-` otherwise
+       sameKL:  1 when `lexKL` of A equals `lexKL` of B (the theorems' conclusion)
+       shifted: 1 when the positional streams agree as lexPos_line_comment / positions_after_line_comment say: the tokens
+                of A and B are equal in number, kind and literal; a token of B that starts before |pre| has the same
+                offsets, line, column and line start in A; the newline token lies |cm| runes further on, on the same line;
+                a token of B behind the newline has in A the offsets and the line start |cm| larger, the same line and column
+       nA, nB:  number of tokens of A and B
   parsenl <tokens> <tree|-> <nls|-> <commas|->
        tokens: the REAL lexer's tokens of one expression text with line breaks, `typehex:lithex`
                items joined by `,` (the encoding of `C01 pratt check`), without the final EOF
@@ -87,10 +101,73 @@ def showKL : Out → String
   | .errT k l c => "E," ++ c ++ "," ++ kindHex k ++ "," ++ toHexField l
   | .err c => "E," ++ c
 
+/-- kept for the protocol: the lexer model classifies every rune (non-ASCII runes by the tables of
+    Go's package `unicode`), no text is outside it any more -/
 def unsupported (ts : List PTok) : Bool :=
   ts.any fun t => match t.out with
     | .err "unsupported" => true
     | _ => false
+
+/-! ### `gap` -/
+
+/-- split `cm` into leading blanks and the rest -/
+def splitBlanks : Chars → Chars × Chars
+  | [] => ([], [])
+  | c :: cs => if isBlank c then let (a, b) := splitBlanks cs; (c :: a, b) else ([], c :: cs)
+
+/-- does `cm` consist of blanks, proper block comments (blanks after each) and a final line comment
+    without newline/NUL — the shape of `lex_line_comment_after_blanks` / `lex_line_comment_at_line_end` -/
+def gapFormOk : Nat → Chars → Bool
+  | 0, _ => false
+  | f + 1, cm =>
+    match (splitBlanks cm).2 with
+    | 35 :: body => body.all fun c => c != 10 && c != 0
+    | 47 :: 47 :: body => body.all fun c => c != 10 && c != 0
+    | 47 :: 42 :: r =>
+      -- up to the first `*/`
+      let rec close : Nat → Chars → Option Chars
+        | 0, _ => none
+        | _, [] => none
+        | _, [_] => none
+        | g + 1, a :: b :: t => if a == 42 && b == 47 then some t else if a == 0 then none else close g (b :: t)
+      match close (r.length + 1) r with
+      | some t => gapFormOk f t
+      | none => false
+    | _ => false
+
+def posEqShift (n : Nat) (a b : Pos) : Bool := a == b.shift n
+
+/-- the positional comparison of `gap` -/
+def shiftedOk (A B : Chars) (preLen n : Nat) : Bool :=
+  let ta := lexAll A
+  let tb := lexAll B
+  ta.length == tb.length &&
+  (ta.zip tb).all fun (x, y) =>
+    x.out == y.out &&
+    (if y.start < preLen then
+       posAt A x.start == posAt B y.start &&
+       (if y.stop < preLen then posAt A x.stop == posAt B y.stop else true)
+     else if y.start == preLen then
+       -- the newline itself: `n` runes further on, on the same line
+       x.start == y.start + n && x.stop == y.stop + n && (posAt A x.start).line == (posAt B y.start).line
+     else
+       posEqShift n (posAt A x.start) (posAt B y.start) && posEqShift n (posAt A x.stop) (posAt B y.stop))
+
+def handleGap (preF cmF restF : String) : String :=
+  match srcOf preF, srcOf cmF, srcOf restF with
+  | some pre, some cm, some rest =>
+    let A := pre ++ (cm ++ 10 :: rest)
+    let B := pre ++ 10 :: rest
+    let fuel := A.length + 2
+    let b (x : Bool) : String := if x then "1" else "0"
+    let guard := match cm with
+      | [] => false
+      | c :: _ => if isBlank c then cutsAt fuel pre c "" else cutsAt2 fuel pre c 10 ""
+    let form := gapFormOk (cm.length + 1) cm
+    let same := lexKL fuel A "" == lexKL fuel B ""
+    "ok\t" ++ b guard ++ "\t" ++ (if form then "1" else "-") ++ "\t" ++ b same ++ "\t" ++ b (shiftedOk A B pre.length cm.length)
+      ++ "\t" ++ toString (lexAll A).length ++ "\t" ++ toString (lexAll B).length
+  | _, _, _ => "error\tbad-hex"
 
 /-- one item per gap: `0` for no newline, otherwise one letter per NEWLINE token, `n` for the
     literal "\n" and `r` for "\r\n" -/
@@ -214,6 +291,7 @@ def handleBridge (srcField treeField gapsField : String) : String :=
 def handle : List String → String
   | ["bridge", src, tree, gaps] => handleBridge src tree gaps
   | ["parsenl", toks, tree, nls, commas] => handleParseNl toks tree nls commas
+  | ["gap", pre, cm, rest] => handleGap pre cm rest
   | ["lex", h] =>
     match srcOf h with
     | some src =>
